@@ -403,3 +403,33 @@ Definition ocf_read (chunks : list (list N)) : list nat * list Z * Z :=
        | HFinished => read_blocks (total + 3) (hd_sync h) bdec0 chunks' trace []
        | _ => (trace, [], 1%Z)
        end.
+
+(* ------------------------------------------------------------------ S for the block phase of Reader::read *)
+(* the same loop on the flat byte string (no chunks), driven by the byte automaton: values and status *)
+Fixpoint blocks1 (fuel : nat) (sync : list N) (d : bdec) (bytes : list N) (vals : list Z) : list Z * Z :=
+  match fuel with
+  | O => (vals, 2%Z)
+  | S fuel =>
+    match bytes with
+    | [] => (vals, 0%Z)
+    | _ :: _ =>
+      let '(d', lft, ok) := brun1 d bytes in
+      if negb ok then ([], 2%Z)
+      else
+        match block_flush d' with
+        | (Some (count, data, bsync), d'') =>
+            if negb (list_eqb bsync sync) then ([], 2%Z)
+            else
+              match data with
+              | [] => blocks1 fuel sync d'' lft vals
+              | _ :: _ =>
+                match get_longs (N.to_nat count) data with
+                | None => ([], 2%Z)
+                | Some (zs, []) => blocks1 fuel sync d'' lft (vals ++ zs)
+                | Some (_, _ :: _) => ([], 3%Z)
+                end
+              end
+        | (None, _) => (vals, 0%Z)          (* input exhausted inside a block *)
+        end
+    end
+  end.
